@@ -850,6 +850,245 @@ def m_option_cloned_addr(e, st, fr, t, args):
     return NotImplemented
 
 
+def _opt_disc(e, st, o, what):
+    d = e.concrete_int(st, e.discriminant_of(st, o))
+    if d is None:
+        raise Unsupported(f"{what} on a symbolic Option")
+    return d
+
+
+def m_option_map_or(e, st, fr, t, args):
+    o, default, f = args
+    if _opt_disc(e, st, o, 'map_or') == 0:
+        return default
+    x = e.get_field(o, ('v', 'Some', 0))
+    e.dropper.drop(st, default, 'unused map_or default')
+    if isinstance(f, VConst):
+        r = builtin_fn_item(e, st, f.text, [x])
+        if r is not NotImplemented:
+            return r
+        try:
+            from models import apply_fn_item
+            return apply_fn_item(e, st, f, x)
+        except Unsupported:
+            pass
+    if call_fnlike(e, st, t, f, [x], 'identity', (t.dest, t.target)):
+        return None
+    raise Unsupported(f"Option::map_or with {f!r}")
+
+
+def m_option_unwrap_or(e, st, fr, t, args):
+    o, default = args
+    if _opt_disc(e, st, o, 'unwrap_or') == 0:
+        return default
+    e.dropper.drop(st, default, 'unused unwrap_or default')
+    return e.get_field(o, ('v', 'Some', 0))
+
+
+def m_option_is_some_and(e, st, fr, t, args):
+    o, f = args
+    if _opt_disc(e, st, o, 'is_some_and') == 0:
+        return VScalar(False)
+    x = e.get_field(o, ('v', 'Some', 0))
+    if call_fnlike(e, st, t, f, [x], 'identity', (t.dest, t.target)):
+        return None
+    raise Unsupported(f"Option::is_some_and with {f!r}")
+
+
+def m_option_filter_fn(e, st, fr, t, args):
+    """Option::filter(opt, pred) where pred is a fn item (e.g. Addr::running)"""
+    o, f = args
+    if not isinstance(f, VConst) or '{closure' in f.text:
+        return NotImplemented
+    if _opt_disc(e, st, o, 'filter') == 0:
+        return NONE
+    x = e.get_field(o, ('v', 'Some', 0))
+    xo = st.alloc(x)
+    if call_fnlike(e, st, t, f, [VRef(('obj', xo), (), False)], 'filter_keep', (t.dest, t.target, xo)):
+        return None
+    raise Unsupported(f"Option::filter with {f!r}")
+
+
+def c_filter_keep(e, st, data, rv):
+    dest, target, xo = data
+    b = e.as_int_expr(rv)
+    if not isinstance(b, int):
+        raise Unsupported("symbolic filter predicate")
+    x = st.objs[xo]
+    st.objs[xo] = TOMB
+    f = st.frames[-1]
+    if b:
+        e.write_place(st, f, dest, some(x))
+    else:
+        e.dropper.drop(st, x, 'filtered out')
+        e.write_place(st, f, dest, NONE)
+    f.bb = target
+    return None
+
+
+def m_option_cloned(e, st, fr, t, args):
+    """Option<&T>::cloned -> Option<T> through T's Clone (hannibal's impl when T is a hannibal type)"""
+    o = args[0]
+    if _opt_disc(e, st, o, 'cloned') == 0:
+        return NONE
+    x = e.get_field(o, ('v', 'Some', 0))
+    m = re.match(r'^Option::<&(.*)>::cloned$', t.func, re.S)
+    ty = m.group(1) if m else 'T'
+    fn = e.sys.resolver.resolve(f"<{ty} as Clone>::clone")
+    if fn is None:
+        return some(e.sys.clone_value(st, deref_arg(e, st, x)))
+    st.meta['conts'] = st.meta.get('conts', []) + [('wrap_some', (t.dest, t.target))]
+    e.push_call(st, fn, [x], ret_dest=None, ret_bb=-1, unwind_bb=t.unwind, tag='cont')
+    return None
+
+
+def m_option_unwrap(e, st, fr, t, args):
+    o = args[0]
+    if _opt_disc(e, st, o, 'unwrap') == 1:
+        return e.get_field(o, ('v', 'Some', 0))
+    st.event('panic', 'explicit', 'unwrap on None')
+    st.meta['panic_now'] = True
+    return [st]
+
+
+# =========================================================================== HashMap (small, concrete keys) / Any
+def _key_repr(e, st, k):
+    k = deref_arg(e, st, k)
+    if isinstance(k, VConst):
+        t = k.text
+        # the single service / message type of a program is named Self, A, M ... in different generic functions
+        t = re.sub(r'^TypeId:(Self|A|S|T)$', 'TypeId:ACTOR', t)
+        return t
+    if isinstance(k, VScalar):
+        return f"int:{k.v}"
+    if isinstance(k, VAgg) and k.name == 'ContextID':
+        return f"ctx:{_key_repr(e, st, k.fields[('f', 0)])}"
+    if isinstance(k, VSym):
+        return f"sym:{k.label}"
+    raise Unsupported(f"hash key {k!r}")
+
+
+def m_hashmap_new(e, st, fr, t, args):
+    return VAgg(name='HashMap', fields={}, extra={'keys': ()})
+
+
+def _map_at(e, st, arg):
+    ref = _target_of_pin(e, st, arg)
+    for _ in range(4):
+        v = _load(e, st, ref)
+        if isinstance(v, VRef):
+            ref = v
+        else:
+            break
+    if not (isinstance(v, VAgg) and v.name == 'HashMap'):
+        return None, None
+    return ref, v
+
+
+def m_hashmap_get(mut):
+    def h(e, st, fr, t, args):
+        ref, mp = _map_at(e, st, args[0])
+        if mp is None:
+            return NotImplemented
+        k = _key_repr(e, st, args[1])
+        if k in mp.extra['keys']:
+            i = mp.extra['keys'].index(k)
+            return some(VRef(ref.root, ref.path + (('f', i),), mut))
+        return NONE
+    return h
+
+
+def m_hashmap_insert(e, st, fr, t, args):
+    ref, mp = _map_at(e, st, args[0])
+    if mp is None:
+        return NotImplemented
+    k = _key_repr(e, st, args[1])
+    keys = mp.extra['keys']
+    if k in keys:
+        i = keys.index(k)
+        old = mp.fields[('f', i)]
+        _store(e, st, ref, VAgg(name='HashMap', fields={**mp.fields, ('f', i): args[2]}, extra=mp.extra))
+        return some(old)
+    i = len(keys)
+    _store(e, st, ref, VAgg(name='HashMap', fields={**mp.fields, ('f', i): args[2]}, extra={'keys': keys + (k,)}))
+    return NONE
+
+
+def m_hashmap_remove(e, st, fr, t, args):
+    ref, mp = _map_at(e, st, args[0])
+    if mp is None:
+        return NotImplemented
+    k = _key_repr(e, st, args[1])
+    keys = mp.extra['keys']
+    if k not in keys:
+        return NONE
+    i = keys.index(k)
+    old = mp.fields[('f', i)]
+    # keep indices stable: tombstone the slot
+    _store(e, st, ref, VAgg(name='HashMap', fields={**mp.fields, ('f', i): TOMB}, extra={'keys': keys[:i] + (None,) + keys[i + 1:]}))
+    return some(old)
+
+
+def m_hashmap_entry_or_default(e, st, fr, t, args):
+    """entry(key) -> VAgg Entry; or_default() -> &mut V"""
+    ref, mp = _map_at(e, st, args[0])
+    if mp is None:
+        return NotImplemented
+    return VAgg(name='HashEntry', fields={('f', 0): ref}, extra={'key': _key_repr(e, st, args[1])})
+
+
+def m_entry_or_default(e, st, fr, t, args):
+    en = args[0]
+    if not (isinstance(en, VAgg) and en.name == 'HashEntry'):
+        return NotImplemented
+    ref = en.fields[('f', 0)]
+    mp = _load(e, st, ref)
+    k = en.extra['key']
+    keys = mp.extra['keys']
+    if k in keys:
+        i = keys.index(k)
+    else:
+        i = len(keys)
+        _store(e, st, ref, VAgg(name='HashMap', fields={**mp.fields, ('f', i): VAgg(name='Vec', extra={'items': ()})}, extra={'keys': keys + (k,)}))
+    return VRef(ref.root, ref.path + (('f', i),), True)
+
+
+def _drop_hashmap(d, st, v, why):
+    for k, x in sorted(v.fields.items(), key=lambda kv: str(kv[0])):
+        d.drop(st, x, why)
+
+
+DROP_MODELS['HashMap'] = _drop_hashmap
+DROP_MODELS['HashEntry'] = lambda d, st, v, why: None
+
+
+def m_any_downcast_ref(e, st, fr, t, args):
+    """<dyn Any>::downcast_ref::<T>(&*boxed): entries are stored under the TypeId of their own type, so the cast succeeds"""
+    v = args[0]
+    for _ in range(4):
+        if isinstance(v, VRef):
+            inner = _load(e, st, v)
+            if isinstance(inner, VAgg) and inner.name == 'Box' and ('f', 0) in inner.fields:
+                v = inner.fields[('f', 0)]
+                continue
+            if isinstance(inner, VRef):
+                v = inner
+                continue
+        break
+    if isinstance(v, VRef):
+        return some(VRef(v.root, v.path, False))
+    raise Unsupported(f"downcast_ref of {v!r}")
+
+
+def m_any_downcast(e, st, fr, t, args):
+    """Box<dyn Any>::downcast::<T>(b) -> Ok(Box<T>)"""
+    return ok(args[0])
+
+
+def m_unbox(e, st, fr, t, args):
+    return NotImplemented
+
+
 def m_option_ok_or(e, st, fr, t, args):
     o, er = args
     d = e.concrete_int(st, e.discriminant_of(st, o))
@@ -938,6 +1177,8 @@ def m_int_min(e, st, fr, t, args):
 
 def install(eng: Engine, resolver):
     eng.dropper = Dropper(eng, resolver)
+    eng.conts['filter_keep'] = c_filter_keep
+    eng.models.insert(0, (R(r'^Option::<.*>::filter::<'), m_option_filter_fn))
     M = eng.models
     add = lambda rx, h: M.append((R(rx), h))
     add(r'^<usize as Ord>::max$|^std::cmp::max::<usize>$|^usize::max$', m_int_max)
@@ -952,6 +1193,7 @@ def install(eng: Engine, resolver):
     add(r'^(std::sync::)?Weak::<.*>::clone$', m_weak_clone)
     add(r'^<Arc<.*> as Deref>::deref$', m_arc_deref)
     add(r'^<Box<.*> as Deref(Mut)?>::deref(_mut)?$', m_arc_deref)
+    add(r'^<Box<.*> as Drop>::drop$', lambda e, st, fr, t, a: UNIT)    # explicit dealloc after moving the content out
     add(r'^Box::<.*>::new$', m_box_new)
     add(r'^Box::<.*>::pin$', m_box_pin)
     add(r'^futures::futures_channel::mpsc::channel::<', m_mpsc_channel)
@@ -989,5 +1231,19 @@ def install(eng: Engine, resolver):
     add(r'^Option::<.*>::is_none$', m_option_is_none)
     add(r'^Option::<.*>::as_ref$', m_option_as_ref)
     add(r'^Option::<.*>::ok_or::<', m_option_ok_or)
+    add(r'^Option::<.*>::map_or::<', m_option_map_or)
+    add(r'^Option::<.*>::unwrap_or$', m_option_unwrap_or)
+    add(r'^Option::<.*>::is_some_and::<', m_option_is_some_and)
+    add(r'^Option::<.*>::cloned$', m_option_cloned)
+    add(r'^Option::<.*>::(unwrap|expect)$', m_option_unwrap)
+    add(r'^<HashMap<.*> as Default>::default$|^HashMap::<.*>::new$', m_hashmap_new)
+    add(r'^HashMap::<.*>::get::<', m_hashmap_get(False))
+    add(r'^HashMap::<.*>::get_mut::<', m_hashmap_get(True))
+    add(r'^HashMap::<.*>::insert$', m_hashmap_insert)
+    add(r'^HashMap::<.*>::remove::<', m_hashmap_remove)
+    add(r'^HashMap::<.*>::entry$', m_hashmap_entry_or_default)
+    add(r'^(std::collections::hash_map::)?Entry::<.*>::or_default$', m_entry_or_default)
+    add(r'^<\(?dyn (std::any::)?Any.*>::downcast_ref::<', m_any_downcast_ref)
+    add(r'Box<\(?dyn (std::any::)?Any.*>::downcast::<', m_any_downcast)
     add(r'^std::result::Result::<.*>::ok$', m_result_ok)
     add(r'^std::result::Result::<.*>::map_err::<', m_result_map_err)
